@@ -15,6 +15,9 @@ def sh(cmd, cwd):
     return subprocess.run(cmd, shell=True, cwd=cwd, capture_output=True, text=True)
 
 
+if not os.path.exists(os.path.join(REPO, "Cargo.lock")) and os.path.exists("/repo/Cargo.lock"):
+    import shutil
+    shutil.copy("/repo/Cargo.lock", os.path.join(REPO, "Cargo.lock"))    # the lock file is git-ignored upstream; a snapshot of HEAD lacks it
 assert sh("git diff --quiet", REPO).returncode == 0, "repository copy is dirty"
 for sid in ids:
     d = os.path.join(V, "seeded", sid)
